@@ -99,3 +99,54 @@ void h_ex_arg(void)
 	__CPROVER_assert(0, "canary");
 #endif
 }
+
+/* BOUNDED: where the argument of :s ends (C14).  The argument is <d>pattern<d>replacement<d>flags; a
+ * delimiter that is the second byte of a backslash pair belongs to the text and does not count; after
+ * the third counting delimiter the argument runs on to the next | newline or " (bytes of backslash
+ * pairs excepted).  Spec function: the pairs are formed left to right. */
+void h_ex_arg_subst(void)
+{
+	char line[TOK_MAXL + 1];
+	char dst[TOK_MAXL + 2];
+	char abbr[2];
+	int k, L = nondet_int();
+	GHOST_INIT();
+	__CPROVER_assume(1 <= L && L <= TOK_MAXL);
+	for (k = 0; k < TOK_MAXL; k++) {
+		line[k] = nondet_char();
+		__CPROVER_assume(line[k] == '/' || line[k] == '\\' || line[k] == '|' || line[k] == 'a' || line[k] == '"');
+	}
+	line[L] = 0;
+	__CPROVER_assume(line[0] == '/');	/* the delimiter */
+	abbr[0] = 's'; abbr[1] = 0;
+	g_sl = L; PX.s0 = 0; PX.ln = line; PX.dst = dst;
+	char *ret = ex_arg(line, dst, abbr);
+	/* spec: walk the backslash pairs */
+	int i = 1, cnt = 2, in_s = 1, end = -1;
+	for (k = 0; k < TOK_MAXL + 1; k++) {
+		if (end >= 0)
+			break;
+		if (!line[i]) {
+			end = i;
+		} else if (line[i] == '\\' && line[i + 1]) {
+			i += 2;		/* a pair: both bytes belong to the text */
+		} else if (in_s) {
+			if (line[i] == '/' && --cnt == 0)
+				in_s = 0;
+			i++;
+		} else if (line[i] == '|' || line[i] == '"') {
+			end = i;
+		} else
+			i++;
+	}
+	if (end >= 0) {
+		H_ASSERT(dst[end] == 0, "ex_arg (:s): the argument ends at the first | or \" after the third counting delimiter (or at the end of the line)");
+		int j = nondet_int();
+		__CPROVER_assume(0 <= j && j < TOK_MAXL);
+		if (j < end)
+			H_ASSERT(dst[j] == line[j], "ex_arg (:s): the argument is copied byte for byte, backslashes included");
+	}
+#ifdef CANARY
+	__CPROVER_assert(0, "canary");
+#endif
+}
